@@ -37,6 +37,105 @@ fn main() {
     }
     let harness = fs::read_to_string("src/server_harness.rs").unwrap_or_default();
     body.push_str("\n// ===== appended by the verification harness (same module => private access) =====\n");
+    // Pieces of main() that the harness needs (they are inline in main(), so they cannot be called): the auth
+    // interceptor closure, the start-up recount of per-tenant vectors and the recover-or-fresh start of the engine
+    // are cut out of the text of main() as it is in the working tree and wrapped into functions, so that a change
+    // to those lines is a change to what the simulation runs. If a piece cannot be found (main() was restructured)
+    // or VERIF_NO_EXTRACT is set (the driver retries that way when the wrapped text does not compile), the harness
+    // falls back to its hand-copied version of the same lines.
+    println!("cargo:rerun-if-env-changed=VERIF_NO_EXTRACT");
+    println!("cargo:rustc-check-cfg=cfg(vh_extracted)");
+    let extracted = if env::var("VERIF_NO_EXTRACT").is_ok() { None } else { extract_main_pieces(&text) };
+    match extracted {
+        Some(code) => {
+            println!("cargo:rustc-cfg=vh_extracted");
+            body.push_str(&code);
+            fs::write(out.join("vh_mode.txt"), "extracted\n").unwrap();
+        }
+        None => {
+            fs::write(out.join("vh_mode.txt"), "stub\n").unwrap();
+        }
+    }
     body.push_str(&harness);
     fs::write(out.join("server_included.rs"), body).unwrap();
+}
+
+/// index just past the `}` that closes the `{` at `open` (string literals and line comments are skipped)
+fn match_brace(t: &[u8], open: usize) -> Option<usize> {
+    if t.get(open) != Some(&b'{') {
+        return None;
+    }
+    let mut depth = 0i64;
+    let mut i = open;
+    while i < t.len() {
+        match t[i] {
+            b'"' => {
+                i += 1;
+                while i < t.len() && t[i] != b'"' {
+                    if t[i] == b'\\' {
+                        i += 1;
+                    }
+                    i += 1;
+                }
+            }
+            b'/' if t.get(i + 1) == Some(&b'/') => {
+                while i < t.len() && t[i] != b'\n' {
+                    i += 1;
+                }
+            }
+            b'{' => depth += 1,
+            b'}' => {
+                depth -= 1;
+                if depth == 0 {
+                    return Some(i + 1);
+                }
+            }
+            _ => {}
+        }
+        i += 1;
+    }
+    None
+}
+
+fn extract_main_pieces(text: &str) -> Option<String> {
+    let main_at = text.find("async fn main()")?;
+    let t = &text[main_at..];
+    let tb = t.as_bytes();
+    // (a) interceptor closure body
+    let m = "KyroDbServiceServer::with_interceptor(grpc_service, move |mut req: Request<()>| {";
+    let a0 = t.find(m)? + m.len() - 1;
+    let a1 = match_brace(tb, a0)?;
+    let interceptor_body = &t[a0 + 1..a1 - 1];
+    // (b) start-up recount: `let tenant_vector_counts = if config.auth.enabled { .. } else { .. };`
+    let m = "let tenant_vector_counts = if config.auth.enabled {";
+    let b0 = t.find(m)?;
+    let b1 = match_brace(tb, b0 + m.len() - 1)?;
+    let rest = &t[b1..];
+    let else_off = rest.find('{')?;
+    if rest[..else_off].trim() != "else" {
+        return None;
+    }
+    let b2 = match_brace(tb, b1 + else_off)?;
+    if !t[b2..].trim_start().starts_with(';') {
+        return None;
+    }
+    let recount_stmt = &t[b0..b2];
+    // (c) recover-or-fresh start of the engine
+    let c0 = t.find("let data_dir_path = config.persistence.data_dir.clone();")?;
+    let c1 = t[c0..].find("info!(\"TieredEngine initialized successfully")? + c0;
+    let start_text = &t[c0..c1];
+    if !start_text.contains("let mut engine = if should_attempt_recovery") {
+        return None;
+    }
+    let mut code = String::new();
+    code.push_str("\n#[allow(unused, unused_mut, unused_assignments, clippy::all)]\npub(crate) fn vh_x_interceptor(auth_enabled: bool, state_for_interceptor: &Arc<ServerState>, mut req: Request<()>) -> Result<Request<()>, Status> {\n");
+    code.push_str(interceptor_body);
+    code.push_str("\n}\n");
+    code.push_str("\n#[allow(unused, unused_mut, unused_assignments, clippy::all)]\npub(crate) fn vh_x_recount(config: &kyrodb_engine::config::KyroDbConfig, auth: &Option<AuthManager>, tenant_id_mapper: &Option<TenantIdMapper>, engine_arc: &Arc<TieredEngine>) -> anyhow::Result<Option<parking_lot::RwLock<HashMap<String, usize>>>> {\n    ");
+    code.push_str(recount_stmt);
+    code.push_str(";\n    Ok(tenant_vector_counts)\n}\n");
+    code.push_str("\n#[allow(unused, unused_mut, unused_assignments, clippy::all)]\npub(crate) fn vh_x_start_engine(config: &kyrodb_engine::config::KyroDbConfig, engine_config: &TieredEngineConfig, cache_strategy: Box<dyn kyrodb_engine::CacheStrategy>, query_cache: Arc<kyrodb_engine::QueryHashCache>, create_cache_strategy: &dyn Fn() -> anyhow::Result<(Box<dyn kyrodb_engine::CacheStrategy>, Option<Arc<LearnedCacheStrategy>>, &'static str)>) -> anyhow::Result<TieredEngine> {\n    let mut learned_strategy_for_training: Option<Arc<LearnedCacheStrategy>> = None;\n    ");
+    code.push_str(start_text);
+    code.push_str("\n    Ok(engine)\n}\n");
+    Some(code)
 }
